@@ -219,12 +219,14 @@ def main(argv):
         spec.setdefault("mode", "A")
         spec.setdefault("hashseed", 0)
         spec["repo"] = repo
-    max_par = int(os.environ.get("VERIF_JOBS", "16" if tier == "thorough" else "8"))
+    max_par = int(os.environ.get("VERIF_JOBS", "16" if tier == "thorough" else "12"))
     timeout_s = getattr(mod, "TIMEOUT", {"quick": 600, "thorough": 3600})[tier]
     done = run_children(prop, specs, repo, srchash, rundir, max_par, timeout_s)
 
     # ---- merge ------------------------------------------------------------------------------
     counters, digests, samples, violations, errors = {}, set(), [], [], []
+    sets = {}
+    shard_info = []
     evaluations = 0
     violations_total = 0
     watchdogs = 0
@@ -251,6 +253,8 @@ def main(argv):
             crashes.append(info)
             continue
         evaluations += res["evaluations"]
+        shard_info.append({"shard": spec["shard"], "mode": spec["mode"], "hashseed": spec["hashseed"],
+                           "evaluations": res["evaluations"], "wall_s": res["wall_s"]})
         violations_total += res["violations_total"]
         for k, v in res["counters"].items():
             if k.startswith("max:"):
@@ -258,6 +262,8 @@ def main(argv):
             else:
                 counters[k] = counters.get(k, 0) + v
         digests.update(res["digests"])
+        for k, v in res.get("sets", {}).items():
+            sets.setdefault(k, set()).update(tuple(x) if isinstance(x, list) else x for x in v)
         for s in res["samples"]:
             if len(samples) < 8:
                 samples.append(s)
@@ -298,6 +304,7 @@ def main(argv):
                      f"[signature={sig}; {len(hits)} witness(es) this run]")
     seen = set()
     printed = 0
+    per_sig = {}
     for v in new_violations:
         body = json.dumps({"property": prop, **v}, sort_keys=True, default=str)
         h = hashlib.sha1(body.encode()).hexdigest()[:12]
@@ -307,13 +314,14 @@ def main(argv):
         path = os.path.join(VERIF, "replays", prop, f"{h}.json")
         with open(path, "w") as f:
             json.dump({"property": prop, **v}, f, indent=1, default=str)
-        if printed < 20:
+        per_sig[v["signature"]] = per_sig.get(v["signature"], 0) + 1
+        if printed < 20 and per_sig[v["signature"]] <= 3:
             lines.append(f"VIOLATION property={prop} replay={path}")
             lines.append(f"  signature={v['signature']} :: {v['what'][:400]}")
             printed += 1
 
     # ---- reach conditions ---------------------------------------------------------------------
-    info = {"repo": repo, "tier": tier, "anchors_unedited": {}}
+    info = {"repo": repo, "tier": tier, "sets": sets, "modes": modes}
     reach = mod.reach(counters, tier, info) if hasattr(mod, "reach") else []
     for r in reach:
         r.setdefault("gating", True)
@@ -336,10 +344,12 @@ def main(argv):
         "samples": samples[:6] + [{"witness": v} for v in violations[:3]],
         "exhaustive": bool(counters.get("exhaustive_spaces", 0)) and getattr(mod, "EXHAUSTIVE", False),
         "counters": {k: counters[k] for k in sorted(counters)},
+        "sets": {k: (sorted(v) if len(v) <= 400 else {"size": len(v)}) for k, v in sets.items()},
         "reach_conditions": reach,
         "modes": sorted(modes),
         "hash_seeds": sorted(hashseeds),
         "shards": len(specs),
+        "shard_info": sorted(shard_info, key=lambda x: x["shard"]),
         "watchdog_firings": watchdogs,
         "violations_by_signature": sig_hist,
         "known_findings_matched": sorted(known_hits),
